@@ -85,8 +85,8 @@ func TinyAtoms() []*Query {
 // Combo is a composite expression with the parts its selection is defined by.
 type Combo struct {
 	Q    *Query
-	Kind QKind    // QAnd, QOr, QParen
-	A, B *Query   // parts (B nil for QParen)
+	Kind QKind  // QAnd, QOr, QParen
+	A, B *Query // parts (B nil for QParen)
 }
 
 // Pairs lists A&&B and A||B over the given atoms.
@@ -111,12 +111,12 @@ func Triples(atoms []*Query) []Combo {
 				ab, bc := And(a, b), And(b, c)
 				oab, obc := Or(a, b), Or(b, c)
 				// unparenthesised: structure follows PEG precedence
-				out = append(out, Combo{Q: &Query{Kind: QOr, A: a, B: bc}, Kind: QOr, A: a, B: bc})   // a || b && c
-				out = append(out, Combo{Q: &Query{Kind: QOr, A: ab, B: c}, Kind: QOr, A: ab, B: c})   // a && b || c
+				out = append(out, Combo{Q: &Query{Kind: QOr, A: a, B: bc}, Kind: QOr, A: a, B: bc}) // a || b && c
+				out = append(out, Combo{Q: &Query{Kind: QOr, A: ab, B: c}, Kind: QOr, A: ab, B: c}) // a && b || c
 				// parenthesised
-				out = append(out, Combo{Q: And(Paren(oab), c), Kind: QAnd, A: oab, B: c})             // (a || b) && c
-				out = append(out, Combo{Q: And(a, Paren(obc)), Kind: QAnd, A: a, B: obc})             // a && (b || c)
-				out = append(out, Combo{Q: Or(Paren(ab), c), Kind: QOr, A: ab, B: c})                 // (a && b) || c
+				out = append(out, Combo{Q: And(Paren(oab), c), Kind: QAnd, A: oab, B: c}) // (a || b) && c
+				out = append(out, Combo{Q: And(a, Paren(obc)), Kind: QAnd, A: a, B: obc}) // a && (b || c)
+				out = append(out, Combo{Q: Or(Paren(ab), c), Kind: QOr, A: ab, B: c})     // (a && b) || c
 			}
 		}
 	}
